@@ -142,6 +142,7 @@ func main() {
 		checkDescriptors(lv)
 		for _, md := range lv.msgs {
 			checkStructTags(lv, md)
+			emptyAccessors(lv, md)
 		}
 	}
 	// explicit cases first (pinned findings, replays)
